@@ -120,3 +120,198 @@ Proof.
     apply (I_wrote s I w0); [|assumption]. rewrite El. apply in_mid. right. assumption.
   - (* join *) intro J. congruence.
 Qed.
+
+(* ------------------------------------------------------------------ replacing a writer by an equivalent one *)
+Lemma wq_same_fields t w w' : wtid w' = wtid w -> whead w' ++ wbufs w' = whead w ++ wbufs w -> wq t w' = wq t w.
+Proof. intros H1 H2. unfold wq, works_for. rewrite H1, H2. reflexivity. Qed.
+Lemma Wq_replace t l1 w w' l2 : wq t w' = wq t w -> Wq t (l1 ++ w' :: l2) = Wq t (l1 ++ w :: l2).
+Proof. intro H. rewrite !Wq_mid, H. reflexivity. Qed.
+Lemma regs_replace l1 w w' l2 : wtid w' = wtid w -> regs (l1 ++ w' :: l2) = regs (l1 ++ w :: l2).
+Proof. intro H. rewrite !regs_mid. unfold reg1 at 2 4. rewrite H. reflexivity. Qed.
+
+(* the buffers clauses when a buffer with no data leaves the chain of t0 *)
+Lemma frame_remove s s' t0 b A B :
+  Inv s -> chain s t0 = A ++ b :: B -> chain s' t0 = A ++ B -> (forall t, t <> t0 -> chain s' t = chain s t) ->
+  data s b = [] -> data s' = data s -> file s' = file s -> plog s' = plog s -> flag s' = flag s -> nbuf s' = nbuf s ->
+  (forall t, content s' t = emitted s' t) /\ (forall t, NoDup (chain s' t)) /\
+  (forall t x, In x (chain s' t) -> fst x = t /\ snd x < nbuf s' t /\ f_rec (flag s' x) = true).
+Proof.
+  intros I Hc Hc' Ho Hd Hda Hf Hp Hfl Hn.
+  assert (Hsub : forall t x, In x (chain s' t) -> In x (chain s t)).
+  { intros t x Hx. destruct (Nat.eq_dec t t0) as [->|Hne]; [|rewrite <- Ho; assumption].
+    rewrite Hc. rewrite Hc' in Hx. apply in_app_or in Hx. apply in_or_app. destruct Hx; [left|right; right]; assumption. }
+  repeat split.
+  - intro t. pose proof (I_content s I t) as E. unfold content, emitted in *. rewrite Hda, Hf, Hp, <- E.
+    destruct (Nat.eq_dec t t0) as [->|Hne]; [|rewrite Ho by assumption; reflexivity].
+    rewrite Hc, Hc'. rewrite !flat_map_app. cbn [flat_map]. rewrite Hd. reflexivity.
+  - intro t. destruct (Nat.eq_dec t t0) as [->|Hne]; [|rewrite Ho by assumption; apply (I_nodup s I)].
+    rewrite Hc'. pose proof (I_nodup s I t0) as ND. rewrite Hc in ND. eapply NoDup_remove_1; eassumption.
+  - apply (I_own s I t x (Hsub t x H)).
+  - rewrite Hn. apply (I_own s I t x (Hsub t x H)).
+  - rewrite Hfl. apply (I_own s I t x (Hsub t x H)).
+Qed.
+
+(* ------------------------------------------------------------------ W_write *)
+Lemma w_write_spec s w s' : w_write s w = Some s' ->
+  joined s = false /\ exists wr t0 b rest, nth_error (ws s) w = Some wr /\ wtid wr = Some t0 /\ whead wr = b :: rest /\
+    wrote wr = false /\
+    s' = set_ws (set_data (set_file s (updt (file s) (fst b) (file s (fst b) ++ data s b))) (upd (data s) b []))
+                (set_nth w {| wtid := Some t0; whead := b :: rest; wbufs := wbufs wr; wrote := true |} (ws s)).
+Proof.
+  unfold w_write. destruct (joined s); [discriminate|].
+  destruct (nth_error (ws s) w) as [wr|]; [|discriminate].
+  destruct (wtid wr) as [t0|] eqn:Ew; [|discriminate].
+  destruct (whead wr) as [|b rest] eqn:Eh; [discriminate|].
+  destruct (wrote wr) eqn:Eo; [discriminate|]. intro H. injection H as <-.
+  split; [reflexivity|]. exists wr, t0, b, rest. repeat (split; [auto|]). reflexivity.
+Qed.
+
+Lemma inv_w_write s s' w : Inv s -> w_write s w = Some s' -> Inv s'.
+Proof.
+  intros I H. apply w_write_spec in H. destruct H as (Ej & wr & t0 & b & rest & En & Ew & Eh & Eo & ->).
+  destruct (nth_split _ _ _ En) as (l1 & l2 & El & Hlen). subst w.
+  assert (Hwr : In wr (ws s)) by (rewrite El; apply in_or_app; right; left; reflexivity).
+  destruct (I_wt s I wr t0 Hwr Ew) as (Htid & Hbw).
+  assert (Hb : fst b = t0) by (apply Htid; rewrite Eh; left; reflexivity).
+  rewrite El, set_nth_split.
+  set (wr' := {| wtid := Some t0; whead := b :: rest; wbufs := wbufs wr; wrote := true |}).
+  set (s1 := set_ws _ _).
+  assert (Hch : forall t, chain s1 t = chain s t).
+  { intro t. unfold chain, pend, s1; sp. rewrite El. rewrite (Wq_replace t l1 wr wr' l2); [reflexivity|].
+    apply wq_same_fields; cbn [wr' wtid whead wbufs]; congruence. }
+  assert (Hc0 : chain s t0 = b :: (rest ++ wbufs wr) ++ of_tid t0 (bwl s) ++ pend s t0).
+  { unfold chain. rewrite El, Wq_mid. pose proof (I_one s I) as ND. rewrite El in ND.
+    destruct (Wq_split t0 l1 wr l2 ND Ew) as [-> ->]. rewrite (wq_same t0 wr Ew), Eh. cbn [app]. rewrite app_nil_r. reflexivity. }
+  pose proof (I_nodup s I t0) as ND0. rewrite Hc0 in ND0. apply NoDup_cons_iff in ND0. destruct ND0 as [Hnotin ND0].
+  constructor; unfold s1; sp; try (apply I).
+  - (* content *) intro t. pose proof (I_content s I t) as E. unfold content, emitted in *. fold s1. rewrite Hch. unfold s1; sp.
+    rewrite <- E.
+    destruct (Nat.eq_dec t t0) as [->|Hne].
+    + rewrite Hb, updt_same, Hc0. cbn [flat_map]. rewrite upd_same. cbn [app].
+      rewrite flat_map_upd_notin by assumption. rewrite <- app_assoc. reflexivity.
+    + rewrite Hb, updt_other by assumption. rewrite flat_map_upd_notin; [reflexivity|].
+      eapply not_in_chain_other; eassumption.
+  - intro t. fold s1. rewrite Hch. apply (I_nodup s I).
+  - intros t x Hx. fold s1 in Hx. rewrite Hch in Hx. apply (I_own s I t x Hx).
+  - intros w0 Hin Hn. apply in_mid in Hin. destruct Hin as [->|Hin]; [cbn in Hn; congruence|].
+    apply (I_idle s I w0); [|assumption]. rewrite El. apply in_mid. right. assumption.
+  - intros w0 t Hin Ht. apply in_mid in Hin. destruct Hin as [->|Hin].
+    + cbn [wtid wr' whead wbufs] in *. rewrite <- Eh. apply (I_wt s I wr t Hwr). congruence.
+    + apply (I_wt s I w0 t); [|assumption]. rewrite El. apply in_mid. right. assumption.
+  - rewrite (regs_replace l1 wr wr' l2) by (cbn; congruence). rewrite <- El. apply (I_one s I).
+  - intros w0 Hin Hw. apply in_mid in Hin. destruct Hin as [->|Hin].
+    + exists b, rest. split; [reflexivity|apply upd_same].
+    + destruct (I_wrote s I w0) as (b0 & r0 & H1 & H2); [rewrite El; apply in_mid; right; assumption|assumption|].
+      exists b0, r0. split; [assumption|]. unfold upd. destruct (bid_eqb b0 b); [reflexivity|assumption].
+  - intro J. congruence.
+Qed.
+
+(* ------------------------------------------------------------------ W_release *)
+Lemma w_release_spec s w s' : w_release s w = Some s' ->
+  joined s = false /\ exists wr t0 b rest, nth_error (ws s) w = Some wr /\ wtid wr = Some t0 /\ whead wr = b :: rest /\
+    wrote wr = true /\
+    s' = set_ws (set_flag s (upd (flag s) b fl_written))
+                (set_nth w {| wtid := Some t0; whead := rest; wbufs := wbufs wr; wrote := false |} (ws s)).
+Proof.
+  unfold w_release. destruct (joined s); [discriminate|].
+  destruct (nth_error (ws s) w) as [wr|]; [|discriminate].
+  destruct (wtid wr) as [t0|] eqn:Ew; [|discriminate].
+  destruct (whead wr) as [|b rest] eqn:Eh; [discriminate|].
+  destruct (wrote wr) eqn:Eo; [|discriminate]. intro H. injection H as <-.
+  split; [reflexivity|]. exists wr, t0, b, rest. repeat (split; [auto|]). reflexivity.
+Qed.
+
+Lemma inv_w_release s s' w : Inv s -> w_release s w = Some s' -> Inv s'.
+Proof.
+  intros I H. apply w_release_spec in H. destruct H as (Ej & wr & t0 & b & rest & En & Ew & Eh & Eo & ->).
+  destruct (nth_split _ _ _ En) as (l1 & l2 & El & Hlen). subst w.
+  assert (Hwr : In wr (ws s)) by (rewrite El; apply in_or_app; right; left; reflexivity).
+  destruct (I_wt s I wr t0 Hwr Ew) as (Htid & Hbw).
+  assert (Hb : fst b = t0) by (apply Htid; rewrite Eh; left; reflexivity).
+  destruct (I_wrote s I wr Hwr Eo) as (b' & rest' & Eh' & Hd). rewrite Eh in Eh'. injection Eh' as <- <-.
+  rewrite El, set_nth_split.
+  set (wr' := {| wtid := Some t0; whead := rest; wbufs := wbufs wr; wrote := false |}).
+  set (s1 := set_ws _ _).
+  pose proof (I_one s I) as ND1. rewrite El in ND1.
+  destruct (Wq_split t0 l1 wr l2 ND1 Ew) as [W1 W2].
+  assert (Hc0 : chain s t0 = [] ++ b :: (rest ++ wbufs wr) ++ of_tid t0 (bwl s) ++ pend s t0).
+  { unfold chain. rewrite El, Wq_mid, W1, W2. rewrite (wq_same t0 wr Ew), Eh. cbn [app]. rewrite app_nil_r. reflexivity. }
+  assert (Hc1 : chain s1 t0 = [] ++ (rest ++ wbufs wr) ++ of_tid t0 (bwl s) ++ pend s t0).
+  { unfold chain, pend, s1; sp. rewrite Wq_mid, W1, W2. rewrite (wq_same t0 wr') by reflexivity. cbn [app wr' whead wbufs].
+    rewrite app_nil_r. reflexivity. }
+  assert (Hco : forall t, t <> t0 -> chain s1 t = chain s t).
+  { intros t Hne. unfold chain, pend, s1; sp. rewrite El. rewrite (Wq_replace t l1 wr wr' l2); [reflexivity|].
+    rewrite (wq_other t wr t0), (wq_other t wr' t0); auto. }
+  assert (Hsub : forall t x, In x (chain s1 t) -> In x (chain s t) /\ x <> b).
+  { intros t x Hx. destruct (Nat.eq_dec t t0) as [->|Hne].
+    - pose proof (I_nodup s I t0) as ND0. rewrite Hc0 in ND0. cbn [app] in ND0. apply NoDup_cons_iff in ND0.
+      rewrite Hc1 in Hx. rewrite Hc0. cbn [app] in *. split; [right; assumption|]. intro; subst x. tauto.
+    - rewrite Hco in Hx by assumption. split; [assumption|]. intro; subst x. apply Hne. symmetry.
+      rewrite <- Hb. eapply chain_tid; eassumption. }
+  constructor; unfold s1; sp; try (apply I).
+  - intro t. pose proof (I_content s I t) as E. unfold content, emitted in *. sp. fold s1.
+    rewrite <- E. destruct (Nat.eq_dec t t0) as [->|Hne]; [|rewrite Hco by assumption; reflexivity].
+    rewrite Hc0, Hc1. cbn [app flat_map]. rewrite Hd. reflexivity.
+  - intro t. fold s1. destruct (Nat.eq_dec t t0) as [->|Hne]; [|rewrite Hco by assumption; apply (I_nodup s I)].
+    rewrite Hc1. pose proof (I_nodup s I t0) as ND0. rewrite Hc0 in ND0. eapply NoDup_remove_1; eassumption.
+  - intros t x Hx. fold s1 in Hx. destruct (Hsub t x Hx) as [Hin Hne]. rewrite upd_other by assumption.
+    apply (I_own s I t x Hin).
+  - intros w0 Hin Hn. apply in_mid in Hin. destruct Hin as [->|Hin]; [discriminate|].
+    apply (I_idle s I w0); [|assumption]. rewrite El. apply in_mid. right. assumption.
+  - intros w0 t Hin Ht. apply in_mid in Hin. destruct Hin as [->|Hin].
+    + cbn [wtid wr' whead wbufs] in *. injection Ht as <-. split; [|assumption].
+      intros x Hx. apply Htid. rewrite Eh. right. assumption.
+    + apply (I_wt s I w0 t); [|assumption]. rewrite El. apply in_mid. right. assumption.
+  - rewrite (regs_replace l1 wr wr' l2) by (cbn; congruence). assumption.
+  - intros w0 Hin Hw. apply in_mid in Hin. destruct Hin as [->|Hin]; [discriminate|].
+    apply (I_wrote s I w0); [|assumption]. rewrite El. apply in_mid. right. assumption.
+  - intro J. congruence.
+Qed.
+
+(* ------------------------------------------------------------------ W_splice *)
+Lemma w_splice_spec s w s' : w_splice s w = Some s' ->
+  joined s = false /\ exists wr t0, nth_error (ws s) w = Some wr /\ wtid wr = Some t0 /\ whead wr = [] /\
+    s' = set_ws s (set_nth w {| wtid := if is_nil (wbufs wr) then None else Some t0;
+                                whead := wbufs wr; wbufs := []; wrote := false |} (ws s)).
+Proof.
+  unfold w_splice. destruct (joined s); [discriminate|].
+  destruct (nth_error (ws s) w) as [wr|]; [|discriminate].
+  destruct (wtid wr) as [t0|] eqn:Ew; [|discriminate].
+  destruct (whead wr) as [|b rest] eqn:Eh; [|discriminate].
+  intro H. injection H as <-.
+  split; [reflexivity|]. exists wr, t0. repeat (split; [auto|]). reflexivity.
+Qed.
+
+Lemma inv_w_splice s s' w : Inv s -> w_splice s w = Some s' -> Inv s'.
+Proof.
+  intros I H. apply w_splice_spec in H. destruct H as (Ej & wr & t0 & En & Ew & Eh & ->).
+  destruct (nth_split _ _ _ En) as (l1 & l2 & El & Hlen). subst w.
+  assert (Hwr : In wr (ws s)) by (rewrite El; apply in_or_app; right; left; reflexivity).
+  destruct (I_wt s I wr t0 Hwr Ew) as (Htid & Hbw).
+  rewrite El, set_nth_split.
+  set (wr' := {| wtid := if is_nil (wbufs wr) then None else Some t0; whead := wbufs wr; wbufs := []; wrote := false |}).
+  set (s1 := set_ws _ _).
+  assert (Hwq : forall t, wq t wr' = wq t wr).
+  { intro t. unfold wq, works_for. cbn [wr' wtid whead wbufs]. rewrite Ew, Eh. cbn [app].
+    destruct (wbufs wr) as [|x l]; cbn [is_nil]; [destruct (t0 =? t); reflexivity|].
+    rewrite app_nil_r. reflexivity. }
+  assert (Hch : forall t, chain s1 t = chain s t).
+  { intro t. unfold chain, pend, s1; sp. rewrite El. rewrite (Wq_replace t l1 wr wr' l2); [reflexivity|apply Hwq]. }
+  destruct (frame_buffers s s1 I Hch eq_refl eq_refl eq_refl eq_refl eq_refl) as (A & B & C).
+  constructor; try assumption; unfold s1; sp; try (apply I).
+  - intros w0 Hin Hn. apply in_mid in Hin. destruct Hin as [->|Hin].
+    + unfold wr' in Hn |- *. cbn [wtid whead wbufs wrote] in Hn |- *.
+      destruct (is_nil (wbufs wr)) eqn:En2; [|discriminate]. apply is_nil_true in En2. auto.
+    + apply (I_idle s I w0); [|assumption]. rewrite El. apply in_mid. right. assumption.
+  - intros w0 t Hin Ht. apply in_mid in Hin. destruct Hin as [->|Hin].
+    + unfold wr' in Ht |- *. cbn [wtid whead wbufs] in Ht |- *.
+      destruct (is_nil (wbufs wr)) eqn:En2; [discriminate|].
+      injection Ht as <-. split; [|assumption]. intros y Hy. apply Htid. rewrite Eh. cbn [app]. rewrite app_nil_r in Hy. assumption.
+    + apply (I_wt s I w0 t); [|assumption]. rewrite El. apply in_mid. right. assumption.
+  - pose proof (I_one s I) as ND. rewrite El, regs_mid in ND. rewrite regs_mid. unfold reg1 at 2 in ND. rewrite Ew in ND.
+    unfold reg1 at 2. cbn [wr' wtid]. destruct (is_nil (wbufs wr)); [|assumption].
+    cbn [app] in *. eapply NoDup_remove_1; eassumption.
+  - intros w0 Hin Hw. apply in_mid in Hin. destruct Hin as [->|Hin]; [discriminate|].
+    apply (I_wrote s I w0); [|assumption]. rewrite El. apply in_mid. right. assumption.
+  - intro J. congruence.
+Qed.
